@@ -1,6 +1,7 @@
 """Contract models: Option / Result combinators, Clone, Deref, comparisons,
 conversions, integer helpers.  Each model follows the documented std
 behaviour; every key that is used is listed in the evidence."""
+import re
 import z3
 from values import *
 from interp import bool_s, mk_int, concrete_int, wrap_int, last_type_name
@@ -505,6 +506,33 @@ def install(ctx):
         h = ip.ctx.default_models.get(ty) if hasattr(ip.ctx, 'default_models') else None
         if h:
             return h(ip)
+        # a prost-generated protocol message: every field at its protocol default
+        order = ip.ctx.src.struct_fields(ty, 'pubsub_proto_generated') if ty else None
+        if order and ip.ctx.src.field_type(ty, order[0], 'pubsub_proto_generated') is not None and 'pubsub_proto' in (pc['qself'] or dt or ''):
+            from models_str import Str
+            from models_coll import Seq
+            from models_bytes import AttrMapTok, BytesTok
+            vals = []
+            for f in order:
+                ft = re.sub(r'\s+', '', ip.ctx.src.field_type(ty, f, 'pubsub_proto_generated') or '')
+                ft = ft.lstrip(':')
+                if re.search(r'(^|::)Option<', ft) and not re.search(r'(^|::)(Vec|HashMap)<', ft.split('Option<')[0]):
+                    vals.append(NONE)
+                elif re.search(r'(^|::)String$', ft):
+                    vals.append(Str([], 0, 0))
+                elif re.search(r'HashMap<.*String,.*String,?>$', ft):
+                    vals.append(AttrMapTok(z3.IntVal(0)))
+                elif re.search(r'(^|::)Vec<u8>$', ft) or re.search(r'(^|::)Bytes$', ft):
+                    vals.append(Opaque('default:%s' % ft))
+                elif re.search(r'(^|::)Vec<', ft):
+                    vals.append(Seq.empty())
+                elif ft in INT_TYPES:
+                    vals.append(mk_int(0, ft))
+                elif ft == 'bool':
+                    vals.append(bool_s(z3.BoolVal(False)))
+                else:
+                    vals.append(Opaque('default:%s' % ft))
+            return Agg(ty, vals)
         return NotImplemented
 
     @M.reg('<Fn>::call', '<FnMut>::call_mut', '<FnOnce>::call_once')
@@ -514,6 +542,14 @@ def install(ctx):
         actual = list(tup.fields) if isinstance(tup, Agg) else [tup]
         r = yield from ip.call_closure(f, actual)
         return r
+
+    @M.reg('i32::unsigned_abs', 'i64::unsigned_abs', 'i16::unsigned_abs', 'i8::unsigned_abs', 'isize::unsigned_abs', '::unsigned_abs')
+    def unsigned_abs(ip, pc, args, dt):
+        x = args[0]
+        uty = {'i8': 'u8', 'i16': 'u16', 'i32': 'u32', 'i64': 'u64', 'isize': 'usize', 'i128': 'u128'}.get(x.ty)
+        if uty is None:
+            raise Unsupported('unsigned_abs of %r' % (x,))
+        return S(z3.If(x.t < 0, -x.t, x.t), uty)
 
     @M.reg('mem::take')
     def mem_take(ip, pc, args, dt):
